@@ -1,6 +1,95 @@
+import TenpyModel.C10.AlgProofs
+import TenpyModel.C10.TermsProofs
 import TenpyModel.Ops.Model
 import TenpyModel.Ops.Bond
+/-!
+# C10 — all representations of a model Hamiltonian are the same operator: property theorems
+
+Formal sums of operator strings (`Sym`, meaning = coefficient function `coeff`, `Sym.Equiv`) are the
+common denotation of the term containers, the term lists, the MPO graph and the bond operators.
+Theorems hold for every chain length, every sequence of calls and every commutative (semi)ring of
+strengths.
+-/
 open TenpyModel.Ops
 
-/-- placeholder while the library grows -/
-theorem C10_coeff_nil {α : Type} [Add α] [Zero α] (t : OpStr) : coeff ([] : Sym α) t = 0 := rfl
+/-- **OnsiteTerms → TermList.**  For every sequence of `add_onsite_term(strength, i, op)` calls
+(`i < L`), `to_TermList()` of the resulting container denotes the sum of the added terms: repeated
+additions to the same `(i, op)` are accumulated, every stored entry is listed exactly once. -/
+theorem C10_terms_termlist_onsite {α : Type} [AddCommMonoid α] (L : Nat) (calls : List (α × Nat × String))
+    (hc : ∀ c ∈ calls, c.2.1 < L) :
+    Sym.Equiv
+      (STermList.denote L (calls.foldl (fun ot c => ot.add c.1 c.2.1 c.2.2) (OnsiteTerms.empty L)).toTermListS)
+      (calls.map (fun c => (onsiteStr L c.2.1 c.2.2, c.1))) := by
+  obtain ⟨hwf, hL, hden⟩ := OnsiteTerms.build_denote L calls hc
+  have := OnsiteTerms.termlist_equiv _ hwf
+  rw [hL] at this
+  exact this.trans hden
+
+/-- the nested dictionaries stay well formed under `add_coupling_term` with `i < j` -/
+theorem coupling_build_WF {α : Type} [AddCommMonoid α] (L : Nat)
+    (calls : List (α × Int × Int × String × String × String)) (hc : ∀ c ∈ calls, c.2.1 < c.2.2.1) :
+    (calls.foldl (fun ct c => ct.add c.1 c.2.1 c.2.2.1 c.2.2.2.1 c.2.2.2.2.1 c.2.2.2.2.2)
+      (CouplingTerms.empty L)).WF' := by
+  suffices ∀ ct0 : CouplingTerms α, ct0.WF' →
+      (calls.foldl (fun ct c => ct.add c.1 c.2.1 c.2.2.1 c.2.2.2.1 c.2.2.2.2.1 c.2.2.2.2.2) ct0).WF' from
+    this _ (CouplingTerms.empty_WF' L)
+  induction calls with
+  | nil => intro ct0 h; exact h
+  | cons c calls ih =>
+    intro ct0 h
+    exact ih (fun c' hc' => hc c' (List.mem_cons_of_mem _ hc')) _
+      (CouplingTerms.add_WF' ct0 h c.1 c.2.1 c.2.2.1 (hc c List.mem_cons_self) _ _ _)
+
+/-- **CouplingTerms → TermList.**  For every sequence of
+`add_coupling_term(strength, i, j, op_i, op_j, op_string)` calls with `i < j`, `to_TermList()` of the
+nested dictionary `{i: {(op_i, op_str): {j: {op_j: strength}}}}` (with the operator string kept)
+denotes the sum of the added couplings `op_i ⊗ op_str ⊗ … ⊗ op_j`. -/
+theorem C10_terms_termlist_coupling {α : Type} [AddCommMonoid α] (L : Nat)
+    (calls : List (α × Int × Int × String × String × String)) (hc : ∀ c ∈ calls, c.2.1 < c.2.2.1) :
+    Sym.Equiv
+      (STermList.denote L (calls.foldl (fun ct c => ct.add c.1 c.2.1 c.2.2.1 c.2.2.2.1 c.2.2.2.2.1 c.2.2.2.2.2)
+        (CouplingTerms.empty L)).toTermListS)
+      (calls.map (fun c => (couplingStr L c.2.1.toNat c.2.2.1.toNat c.2.2.2.1 c.2.2.2.2.2 c.2.2.2.2.1, c.1))) := by
+  obtain ⟨hL, hden⟩ := CouplingTerms.build_denote L calls
+  have := CouplingTerms.termlist_equiv _ (CouplingTerms.WF_of_WF' _ (coupling_build_WF L calls hc))
+  rw [hL] at this
+  exact this.trans hden
+
+/-- **Hermiticity.**  A sum of terms that is closed under the Hermitian conjugate (`T + T†`, what
+`plus_hc=True` produces) is a self-adjoint formal sum; `hc` is the name-wise conjugate of the sites
+(`hc_ops`, an involution), `cj` complex conjugation. -/
+theorem C10_hermitian {α : Type} [CommSemiring α] (hc : String → String) (cj : α → α)
+    (hhc : ∀ x, hc (hc x) = x) (hcj : ∀ x, cj (cj x) = x) (T : Sym α) :
+    Sym.Equiv (Sym.dagger hc cj (T ++ Sym.dagger hc cj T)) (T ++ Sym.dagger hc cj T) :=
+  hermitian_of_closed hc cj hhc hcj T
+
+/-- **`explicit_plus_hc`.**  With the flag the adders store `A/2 + B` (`A` = terms added without
+`plus_hc`, halved; `B` = terms added with `plus_hc`, their conjugate *not* stored) and the model
+represents `stored + stored†`; without the flag they store and represent `A + B + B†`.  Both
+representations denote the same sum whenever `A` is self-adjoint. -/
+theorem C10_plus_hc {α : Type} [CommSemiring α] (hc : String → String) (cj : α →+* α) (half : α)
+    (hhalf : half + half = 1) (hcjh : cj half = half) (A B : Sym α)
+    (hA : Sym.Equiv (Sym.dagger hc cj A) A) :
+    Sym.Equiv ((Sym.smul half A ++ B) ++ Sym.dagger hc cj (Sym.smul half A ++ B))
+      (A ++ B ++ Sym.dagger hc cj B) :=
+  explicit_eq_implicit hc cj half hhalf hcjh A B hA
+
+/-- the prologue shared by all adders of `CouplingModel` implements exactly that bookkeeping -/
+theorem C10_plus_hc_prologue {α : Type} [Mul α] (m : Model α) (half : α) (ph : Bool) (s : α) :
+    m.prologue half ph s =
+      if m.explicitPlusHc then (false, if ph then s else s * half) else (ph, s) := by
+  unfold Model.prologue
+  cases m.explicitPlusHc <;> cases ph <;> rfl
+
+/-! ## non-vacuity -/
+section examples
+
+/-- three calls, two of them on the same `(i, op)`: accumulated to one entry, listed once -/
+example : (([(2, 1, "Sz"), (3, 0, "Sx"), (5, 1, "Sz")] : List (Int × Nat × String)).foldl
+      (fun ot c => ot.add c.1 c.2.1 c.2.2) (OnsiteTerms.empty 3)).toTermList
+    = [([("Sx", 0)], 0 + 3), ([("Sz", 1)], 0 + 2 + 5)] := by decide
+
+example : ((CouplingTerms.empty 4 : CouplingTerms Int).add 2 0 2 "Cd JW" "C" "JW").denote
+    = [(["Cd JW", "JW", "C", "Id"], 0 + 2)] := by decide
+
+end examples
